@@ -29,6 +29,8 @@ MC_ENCODER = dict(module="MC_Encoder", cfg="MC_Encoder.cfg", cfg_thorough="MC_En
 
 MC_BYTESCURSOR = dict(module="MC_BytesCursor", cfg="MC_BytesCursor.cfg", workers=2)
 
+MC_IOADAPTERS = dict(module="MC_IoAdapters", cfg="MC_IoAdapters.cfg", workers=2)
+
 PROPS = {
     "C20": dict(level="model_checking", mc=[MC_FORMAT], steps=[dict(kind="custom", fn="feature_builds")],
         rule="one deterministic corpus (the C01 values and the C03 byte strings of every type available in the configuration, fixed seed) through one build "
@@ -53,7 +55,7 @@ PROPS = {
             "enumerated by TLC from the ledger machine, stretched to sizes 7 and 40; non-trivial = at least one element constructed or a fault injected, "
             "distinct by (shape, size, fault position, kind)"),
     "C06": dict(level="model_checking", mc=[MC_CONTAINERS], steps=[trace(1, 8)]),
-    "C07": dict(level="model_checking", mc=[MC_ENCODER, MC_FORMAT], steps=[trace(1, 4)]),
+    "C07": dict(level="model_checking", mc=[MC_ENCODER, MC_FORMAT, MC_IOADAPTERS], steps=[trace(1, 4)]),
     "C15": dict(level="model_checking", mc=[MC_APPEND], steps=[trace(1, 6)]),
     "C16": dict(level="model_checking", mc=[MC_FORMAT], steps=[trace(1, 10)]),
     "C04": dict(level="model_checking", mc=[MC_COMPACT], steps=[
@@ -67,7 +69,7 @@ PROPS = {
     "C01": dict(level="model_checking", mc=[MC_FORMAT], steps=[trace()]),
     "C02": dict(level="model_checking", mc=[MC_FORMAT], steps=[trace(1, 4)]),
     "C03": dict(level="model_checking", mc=[MC_DECODER], steps=[trace(2, 16)]),
-    "C08": dict(level="model_checking", mc=[MC_DECODER, MC_BYTESCURSOR], steps=[trace(1, 2)]),
+    "C08": dict(level="model_checking", mc=[MC_DECODER, MC_BYTESCURSOR, MC_IOADAPTERS], steps=[trace(1, 2)]),
     "C11": dict(level="model_checking", mc=[MC_DECODER], steps=[trace(1, 6), dict(kind="apalache", module="Ind_Depth")]),
     "C12": dict(level="model_checking", mc=[MC_DECODER], steps=[trace(1, 4), dict(kind="apalache", module="Ind_Mem")]),
     "C13": dict(level="model_checking", mc=[MC_FORMAT], steps=[trace(1, 10)]),
